@@ -1,0 +1,11 @@
+//go:build verif
+
+package colors
+
+// Contracts for the govc verifier (see /verif/DESIGN.md). This file contains comments only.
+
+//@ func Sprint(color, s) returns (r)
+//@   mode str
+//@   assigns nothing
+//@   ensures NOCOLOR ==> r == s
+//@   ensures !NOCOLOR ==> r == color + s + "\x1b[0m"
